@@ -19,6 +19,7 @@ noncomputable def rcOps (𝕜 V : Type) [RCLike 𝕜] [NormedAddCommGroup V] [In
   norm x := ‖x‖
   gtReal s t := decide (t < re s ∨ (t = re s ∧ 0 < im s))
   sqrtRe s := Real.sqrt ((‖s‖ + re s) / 2)
+  isZero s := decide (s = 0)
 
 /-- specification of the loop invariant -/
 structure CGInv (A M : V → V) (b : V) (s : CGState 𝕜 V) : Prop where
@@ -281,6 +282,23 @@ theorem scanStep_inv (A : V →ₗ[𝕜] V) (b : V) (s : ScanState 𝕜 V) (h : 
   simp only [scanStep]
   rw [h.res, map_add, map_smul]
   abel
+
+/-- once the residual, the search direction and `num` are exactly zero a scan step changes nothing
+    (`alpha` and `beta` are set to `0` by the guards instead of `0/0`) -/
+theorem scanStep_fixed (A : V →ₗ[𝕜] V) (s : ScanState 𝕜 V) (hr : s.r = 0) (hp : s.p = 0) (hn : s.num = 0) :
+    scanStep (rcOps 𝕜 V) A s = s := by
+  cases s with
+  | mk x r p num =>
+    simp only at hr hp hn
+    subst hr hp hn
+    simp [scanStep, rcOps]
+
+theorem scanIter_fixed (A : V →ₗ[𝕜] V) (s : ScanState 𝕜 V) (hr : s.r = 0) (hp : s.p = 0) (hn : s.num = 0) :
+    ∀ k, scanIter (rcOps 𝕜 V) A k s = s
+  | 0 => rfl
+  | k + 1 => by
+    rw [scanIter, scanStep_fixed A s hr hp hn]
+    exact scanIter_fixed A s hr hp hn k
 
 theorem scanIter_inv (A : V →ₗ[𝕜] V) (b : V) :
     ∀ (k : Nat) (s : ScanState 𝕜 V), ScanInv (⇑A) b s → ScanInv (⇑A) b (scanIter (rcOps 𝕜 V) A k s)
